@@ -152,7 +152,8 @@ def run_configs(P, cases, configs, wd, res, pid, label, max_cases=None, rng=None
 # crashes of the compiler that are genuine, recorded defects of /repo (known_findings.json).  For the properties that
 # list them they are reported as KNOWN-FINDING; for the other evaluation properties such a program simply cannot be
 # evaluated in any configuration and is left out (counted).
-KNOWN_CRASHES = {"Unable to ground parameter in materialisation-requiring aggregate body": "aggregate-param-grounding-assert"}
+KNOWN_CRASHES = {"Unable to ground parameter in materialisation-requiring aggregate body": "aggregate-param-grounding-assert",
+                 "has no member named 'lowerUpperRange_0": "compiled-eqrel-all-undef-existence-check"}
 
 def known_crash(res, pid, text):
     from . import known
